@@ -51,10 +51,10 @@ COMPONENTS = {
     "replaced_leaf_functions": ["builtins.open/io.open (simulated disk + stream stack)"],
 }
 ASSUMPTIONS = [
-    "tables use ids 0..n-1 in row order, every parent is -1 or an id of the table (the statement's 'every function "
+    "tables use ids 0..n-1, listed by id or in a generated row order (is_sorted is judged only when listed by id), every parent is -1 or an id of the table (the statement's 'every function "
     "from nodes to {none} + nodes'); connected = one weakly connected component; a self-loop is a cycle",
     "is_bifurcate(exclude_root=True) is judged as 'every node that has a parent has at most two children'",
-    "in forest files the first row is the first root; non-first roots may be anywhere; coordinates are distinct "
+    "in forest files the first row is the first root and carries the smallest id; other rows may carry their ids in any order; non-first roots may be anywhere; coordinates are distinct "
     "multiples of 0.25 so the text format is exact",
     "fix_roots=False is read with sort_nodes=False (sorting asserts a single root by contract)",
     "which node 'nearest' links a root to is not judged, only that the result is single-rooted, keeps the first "
@@ -106,7 +106,9 @@ def gen_table(w: Prng) -> dict:
             steps.append({"k": k, "i": w.below(64), "p": None if w.chance(0.2) else w.below(64)})
         else:
             steps.append({"k": k})
-    return {"init": init, "steps": steps}
+    # the order in which the rows of the table are listed (ids stay 0..n-1): None = by id
+    rowkeys = [w.below(1000) for _ in range(14)] if w.chance(0.4) else None
+    return {"init": init, "steps": steps, "rowkeys": rowkeys}
 
 
 def gen_stream(rng: Prng) -> dict:
@@ -146,6 +148,8 @@ def gen_roots(w: Prng, sp: Prng) -> dict:
         "z": [0.25 * w.randint(-40, 40) for _ in range(n)],
         "r": [0.25 * w.randint(1, 12) for _ in range(n)],
         "base": w.choice([0, 1, 1, 17, 1000]),
+        # id of row i is base + sig[i]: rows need not be listed in ascending id order (row 0 keeps the base)
+        "sig": ([0] + [1 + q for q in w.permutation(n - 1)]) if w.chance(0.35) else None,
     }
     reads = []
     for _ in range(w.randint(1, 4)):
@@ -251,14 +255,15 @@ def run_dsu(program: dict, world: World, out: dict):
     out["nontrivial"] = out["steps"] >= 3 and joined
 
 
-def table_checks(pid: list[int], what: str):
+def table_checks(pid: list[int], what: str, rowkeys=None):
     import pandas as pd
 
     from swcgeom.core import swc_utils
 
     n = len(pid)
-    ids = np.arange(n, dtype=np.int32)
-    pids = np.array(pid, dtype=np.int32)
+    order = list(range(n)) if not rowkeys else sorted(range(n), key=lambda i: (rowkeys[i % len(rowkeys)], i))
+    ids = np.array(order, dtype=np.int32)
+    pids = np.array([pid[i] for i in order], dtype=np.int32)
     df = pd.DataFrame({"id": ids.copy(), "type": np.zeros(n, dtype=np.int32), "x": np.zeros(n), "y": np.zeros(n),
                        "z": np.zeros(n), "r": np.ones(n), "pid": pids.copy()})
     exp = table_model.connected(pid)
@@ -269,10 +274,14 @@ def table_checks(pid: list[int], what: str):
     got = guarded("has_cyclic", lambda: swc_utils.has_cyclic((ids.copy(), pids.copy())))
     if bool(got) != exp:
         raise Bad("checker_wrong", "has_cyclic", f"table {pid}: has_cyclic = {got}, brute force = {exp}")
-    exp = table_model.parents_precede_children(pid)
-    got = guarded("is_sorted", lambda: swc_utils.is_sorted((ids.copy(), pids.copy())))
-    if bool(got) != exp:
-        raise Bad("checker_wrong", "is_sorted", f"table {pid}: is_sorted = {got}, parents precede children = {exp}")
+    if order == list(range(n)):
+        # with rows listed out of id order "precede" is ambiguous (row order or id order): not judged
+        exp = table_model.parents_precede_children(pid)
+        got = guarded("is_sorted", lambda: swc_utils.is_sorted((ids.copy(), pids.copy())))
+        if bool(got) != exp:
+            raise Bad("checker_wrong", "is_sorted", f"table {pid}: is_sorted = {got}, parents precede children = {exp}")
+    else:
+        guarded("is_sorted", lambda: swc_utils.is_sorted((ids.copy(), pids.copy())))  # must still terminate
     for ex in (False, True):
         exp = table_model.at_most_two_children(pid, ex)
         got = guarded("is_bifurcate", lambda: swc_utils.is_bifurcate((ids.copy(), pids.copy()), exclude_root=ex))
@@ -284,7 +293,8 @@ def table_checks(pid: list[int], what: str):
 def run_table(program: dict, world: World, out: dict):
     pid = list(program["init"])
     interesting = False
-    table_checks(pid, "init")
+    rowkeys = program.get("rowkeys")
+    table_checks(pid, "init", rowkeys)
     for si, s in enumerate(program["steps"]):
         out["steps"] += 1
         k = s["k"]
@@ -313,19 +323,24 @@ def run_table(program: dict, world: World, out: dict):
         if pid.count(-1) > 1:
             world.probe("c18.table_is_forest")
             interesting = True
-        table_checks(pid, f"step {si}")
+        table_checks(pid, f"step {si}", rowkeys)
         out["states"].append("t" + ",".join(str(x) for x in pid))
     out["nontrivial"] = out["steps"] >= 3 and interesting
+
+
+def sig_of(f: dict) -> list[int]:
+    return f.get("sig") or list(range(len(f["pid"])))
 
 
 def forest_text(f: dict) -> str:
     n = len(f["pid"])
     b = f["base"]
+    sig = sig_of(f)
     lines = ["# generated forest"]
     for i in range(n):
         p = f["pid"][i]
-        lines.append(f"{i + b} {f['type'][i]} {f['x'][i]:.4f} {f['y'][i]:.4f} {f['z'][i]:.4f} {f['r'][i]:.4f} "
-                     f"{-1 if p == -1 else p + b}")
+        lines.append(f"{sig[i] + b} {f['type'][i]} {f['x'][i]:.4f} {f['y'][i]:.4f} {f['z'][i]:.4f} {f['r'][i]:.4f} "
+                     f"{-1 if p == -1 else sig[p] + b}")
     return "\n".join(lines) + "\n"
 
 
@@ -334,14 +349,15 @@ def forest_frame(f: dict):
 
     n = len(f["pid"])
     b = f["base"]
+    sig = sig_of(f)
     return pd.DataFrame({
-        "id": np.arange(b, b + n, dtype=np.int64),
+        "id": np.array([b + sig[i] for i in range(n)], dtype=np.int64),
         "type": np.array(f["type"], dtype=np.int64),
         "x": np.array(f["x"], dtype=np.float64),
         "y": np.array(f["y"], dtype=np.float64),
         "z": np.array(f["z"], dtype=np.float64),
         "r": np.array(f["r"], dtype=np.float64),
-        "pid": np.array([-1 if p == -1 else p + b for p in f["pid"]], dtype=np.int64),
+        "pid": np.array([-1 if p == -1 else sig[p] + b for p in f["pid"]], dtype=np.int64),
     })
 
 
@@ -369,9 +385,10 @@ def judge_frame(f: dict, rows: dict, op: str, *, repaired: bool, id_shift, relab
     if len(set(id_of.values())) != n:
         raise Bad("ids_collide", op, "result ids are not distinct")
     if id_shift is not None:
+        sig = sig_of(f)
         for i in range(n):
-            if id_of[i] != i + id_shift:
-                raise Bad("id_wrong", op, f"file row {i} has id {id_of[i]}, expected {i + id_shift}")
+            if id_of[i] != sig[i] + id_shift:
+                raise Bad("id_wrong", op, f"file row {i} has id {id_of[i]}, expected {sig[i] + id_shift}")
     new_pid = [None] * n  # original row -> original row of the new parent, or -1
     back = {v: k for k, v in id_of.items()}
     for j, i in enumerate(orig):
@@ -450,6 +467,11 @@ def run_roots(program: dict, world: World, out: dict):
             if not plan.is_default():
                 world.read_plans[rel] = plan
             sort = bool(rd["sort"]) and fix is not False
+            if f.get("sig") and api == "tree":
+                if fix is False:
+                    api, op = "read_swc", f"read_swc[fix_roots={fix}]"  # a Tree needs id == position
+                else:
+                    sort = True
             reset = bool(rd["reset"]) or api == "tree"
             if api == "read_swc":
                 df, _ = guarded(op, lambda: swc_utils.read_swc(path, fix_roots=fix, sort_nodes=sort, reset_index=reset))
@@ -507,6 +529,10 @@ def _drop_forest_row(program: dict, i: int):
         del g[k][i]
     g["pid"] = [(-1 if q == -1 else (par if q == i else q)) for q in g["pid"]]
     g["pid"] = [(q - 1 if q > i else q) for q in g["pid"]]
+    if g.get("sig"):
+        gone = g["sig"][i]
+        del g["sig"][i]
+        g["sig"] = [(v - 1 if v > gone else v) for v in g["sig"]]
     return p
 
 
@@ -537,6 +563,8 @@ def shrink_candidates(program: dict):
             c = _drop_forest_row(program, i)
             if c is not None:
                 yield c
+        if program["forest"].get("sig"):
+            yield shrink.with_value(program, ["forest", "sig"], None)
         if program["forest"]["base"] not in (0, 1):
             yield shrink.with_value(program, ["forest", "base"], 1)
         for ri, r in enumerate(program["reads"]):
